@@ -74,3 +74,34 @@ def load(fresh=False):
 def sub(name):
     _ensure_path()
     return importlib.import_module('ombott.' + name)
+
+
+# ---- module-level mutable state of ombott: snapshot at import, restore before an execution ------------------------
+_snap = {}
+
+
+def snapshot_globals():
+    """Remember the content of every module-level list / dict / set of the loaded ombott modules."""
+    import copy
+    _snap.clear()
+    for name, mod in list(sys.modules.items()):
+        if name == 'ombott' or name.startswith('ombott.'):
+            for k, v in vars(mod).items():
+                if type(v) in (list, dict, set) and not k.startswith('__'):
+                    try:
+                        _snap[(name, k)] = (v, copy.copy(v))
+                    except Exception:   # noqa
+                        pass
+
+
+def restore_globals():
+    """Put the remembered content back in place (same container objects), e.g. to make lazily filled caches cold."""
+    for (name, k), (obj, saved) in _snap.items():
+        if type(obj) is list:
+            obj[:] = saved
+        elif type(obj) is dict:
+            obj.clear()
+            obj.update(saved)
+        else:
+            obj.clear()
+            obj.update(saved)
